@@ -59,7 +59,7 @@ def build_kq():
 
 # ------------------------------------------------------------------ Coq: static theories + props (direct coqc until _CoqProject lists them)
 
-KQ_V = ["theories/KqModel.v", "theories/KqInv.v"]
+KQ_V = ["theories/KqModel.v", "theories/KqInv.v", "theories/KqHist.v"]
 PROPS = {"C17": "props/C17.v", "C18": "props/C18.v"}
 COQC = "coqc -Q theories Fsn -Q props FsnProps -w -notation-overridden"
 
@@ -422,6 +422,7 @@ CORPUS = [
                           "fs create d/s", "api add ./d", "fs create d/t", "racecl create d/0"]),
     ("p-close-racing-3", ["fs mkdir d", "fs mkdir e", "fs create d/1", "fs create d/2", "fs create d/3", "fs create d/4", "fs create d/5",
                           "fs create e/1", "fs create e/2", "fs create e/3", "api add d", "api add e", "fs write d/1", "racecl create e/0"]),
+    ("k-dir-write-rename-coalesced", ["fs mkdir p", "api add p", "fs mkdir p/d", "api add p/d", "hold", "fs create p/d/x", "fs rename p/d p/e", "release", "fs mkdir p/d"]),
     ("k-burst-rmdir-recreate", ["fs mkdir d", "api add d", "fs mkdir d/s", "hold", "fs rmdir d/s", "fs create d/s", "release"]),
     ("p-plain", ["fs mkdir d", "fs create d/pre", "api add d", "fs create d/a", "fs write d/a", "fs chmod d/a", "fs rename d/a d/b",
                  "fs unlink d/b", "fs create d/b", "fs mkdir d/s", "fs rmdir d/s", "api list", "api remove d", "api list"]),
@@ -547,7 +548,7 @@ def features(steps):
     """shape of a (minimal) history: which ingredients it has (a small replay of the tree, add by add)"""
     kinds, f = {}, set()      # path -> 'f' | 'd' | 'p' | 'l' ; link targets under path+'@'
     adds, adddirs = [], set()
-    holding, renamed_away, rmdired = False, set(), set()
+    holding, renamed_away, rmdired, changed_in_hold = False, set(), set(), set()
 
     def target(p):
         t = kinds.get(p + "@")
@@ -577,6 +578,13 @@ def features(steps):
         if w[0] == "fs" and len(w) >= 3:
             p = w[-1]
             par = os.path.dirname(p) or "."
+            if holding and w[1] in ("create", "mkdir", "mkfifo", "symlink", "link", "unlink", "rmdir"):
+                changed_in_hold.add(par)
+            if holding and w[1] == "rename" and len(w) == 4:
+                changed_in_hold.add(os.path.dirname(w[3]) or ".")
+                if w[2] in adds and kinds.get(w[2]) == "d" and w[2] in changed_in_hold:
+                    f.add("watched-dir-write-rename-coalesced")
+                changed_in_hold.add(os.path.dirname(w[2]) or ".")
             if holding and p in renamed_away and w[1] in ("mkfifo", "symlink", "mkdir", "link"):
                 f.add("rename-then-recreate-in-burst")
             if holding and p in rmdired and w[1] in ("mkfifo", "symlink", "mkdir", "link", "create"):
@@ -654,6 +662,7 @@ def features(steps):
             holding = False
             renamed_away.clear()
             rmdired.clear()
+            changed_in_hold.clear()
     if any(s == "api close" for s in steps):
         f.add("close")
     return sorted(f)
@@ -661,7 +670,7 @@ def features(steps):
 
 # the last two are the ingredients of defects repaired in /repo (c3f1f06): they only decide the key when nothing else does
 CAUSES = ["symlink-added", "fifo-entry", "dangling-symlink-entry", "symlink-entry",
-          "watched-dir-renamed", "watched-file-overwritten", "rename-then-recreate-in-burst", "rmdir-then-recreate-in-burst", "entry-user-removed",
+          "watched-dir-write-rename-coalesced", "watched-dir-renamed", "watched-file-overwritten", "rename-then-recreate-in-burst", "rmdir-then-recreate-in-burst", "entry-user-removed",
           "fifo-added", "unclean-spelling"]
 
 
@@ -815,6 +824,7 @@ WHAT = {
     "entry-user-removed": "Remove of a user-added entry of a watched directory removes the one shared watch: the directory stops reporting that entry's changes and reports Create for it again",
     "reader-blocked:plain": "the reader goroutine blocks forever",
     "rename-then-recreate-in-burst": "a name renamed away and created again before the reader runs gets no Create until the directory changes again (only NOTE_DELETE, not NOTE_RENAME, triggers the re-scan of the name)",
+    "watched-dir-write-rename-coalesced": "a watched directory that changes and is then renamed before the reader runs delivers one record with NOTE_WRITE|NOTE_RENAME: readEvents takes the directory-scan branch (isDir && Write && !Remove) instead of sending the event, so the Rename of the directory is never reported (and the scan runs on a path that is gone)",
     "rmdir-then-recreate-in-burst": "a sub-directory of a watched directory removed and its name created again before the reader runs gets Remove but no Create until the directory changes again (the isDir branch of the Remove block in readEvents never re-checks the name)",
 }
 
